@@ -359,9 +359,9 @@ class PDFContentParser(PSStackParser[Union[PSKeyword, PDFStream]]):
                 eos = b"EI"
                 # the inline image dictionary may use the abbreviated or the full key
                 filter = d.get("F", d.get("Filter"))
-                if filter is not None:
-                    if isinstance(filter, PSLiteral):
-                        filter = [filter]
+                if isinstance(filter, PSLiteral):
+                    filter = [filter]
+                if isinstance(filter, list) and filter:
                     if filter[0] in LITERALS_ASCII85_DECODE:
                         eos = b"~>"
                 (pos, data) = self.get_inline_data(pos + len(b"ID "), target=eos)
